@@ -241,6 +241,7 @@ for _k, _c in EXTRA9.items():
     CLAIMS[_k] = (c0 + _c, n0, t0)
 
 EXTRA10 = {
+ "C17": "; the zero-height export rebases EnableHeight",
  "C04": "; RunSetup refuses transaction methods whose origin is the erc20 module account",
  "C07": "; the precompiles' recovering handler and the hook dispatcher do not let a panic escape",
  "C13": "; the reward coefficient is range-checked where it is accepted",
